@@ -625,7 +625,7 @@ theorem cropWindowText_caret_eof (w : List Char) (wsr col rad k : Nat)
 /-! ### linking `prepare` to the text and the location -/
 
 /-- the successful path of `prepare`, as one equation -/
-theorem prepare_eq (text : List Char) (loc : Snippet.Loc) (m : Mapping) (r : Nat)
+theorem prepareOn_eq (text : List Char) (loc : Snippet.Loc) (m : Mapping) (r : Nat)
     (hlen : text.length + 1 ≤ usizeMax) (rw_ : Nat) (hu : loc.isUnknown = false)
     (hrel : relativeRow m loc.line = some rw_) (hne : text ≠ []) (hr1 : 1 ≤ rw_)
     (hr2 : rw_ ≤ text.count '\n' + 1)
@@ -633,13 +633,13 @@ theorem prepare_eq (text : List Char) (loc : Snippet.Loc) (m : Mapping) (r : Nat
     ∃ endB ws we, 1 ≤ ws ∧ ws ≤ rw_ ∧ rw_ ≤ we ∧ we ≤ text.count '\n' + 1 ∧ we - ws ≤ 2 * ctxLines ∧
       (rw_ = 1 ∨ ws < rw_) ∧
       blen (takeRows (rw_ - 1) text) + blen ((visibleLine text rw_).take (loc.column - 1)) ≤ endB ∧
-      prepare text loc m r =
+      prepareOn text loc m r =
         (cropWindowText (takeRows (we - (ws - 1)) (dropRows (ws - 1) text)) ws rw_ loc.column r
           (min (blen (takeRows (rw_ - 1) text) + blen ((visibleLine text rw_).take (loc.column - 1)) -
                 blen (takeRows (ws - 1) text)) (blen (takeRows (we - (ws - 1)) (dropRows (ws - 1) text))))
           (min (endB - blen (takeRows (ws - 1) text)) (blen (takeRows (we - (ws - 1)) (dropRows (ws - 1) text))))).bind
           (fun x => .ok (some ⟨x.1, x.2.1, x.2.2, rw_, ws, we, text.count '\n' + 1, absoluteRow m ws⟩)) := by
-  unfold prepare
+  unfold prepareOn
   rw [if_neg (by rw [hu]; simp), hrel]
   simp only []
   have h1 : ¬ (lineStarts text).isEmpty = true := fun h => hne ((lineStarts_nil_iff _).mp h)
@@ -742,16 +742,16 @@ theorem window_rows_decomp (text : List Char) (ws we rw_ : Nat) (h1 : 1 ≤ ws) 
 /-- the span start computed by `prepare` is a character boundary of the window text, lies in the row
 of the location (after `row − window_start_row` line breaks), and the character there is the sanitised
 character in the reported column (end of line for `column = len + 1`) -/
-theorem prepare_caret (text : List Char) (loc : Snippet.Loc) (m : Mapping) (r : Nat)
+theorem prepareOn_caret (text : List Char) (loc : Snippet.Loc) (m : Mapping) (r : Nat)
     (hlen : text.length + 1 ≤ usizeMax) (hcol : loc.column ≤ usizeMax) (p : Prepared)
-    (h : prepare text loc m r = .ok (some p)) :
+    (h : prepareOn text loc m r = .ok (some p)) :
     ∃ pre rest, p.windowText = pre ++ rest ∧ blen pre = p.localStart ∧
       pre.count '\n' = p.row - p.windowStartRow ∧
       (rest.head? = ((visibleLine text p.row)[loc.column - 1]?).map sanitizeChar ∨
         ((visibleLine text p.row)[loc.column - 1]? = none ∧ (rest = [] ∨ rest.head? = some '\n'))) ∧
       (∃ Q lead j, pre = Q ++ (lead ++ Spec.Snippet.sanitize (((visibleLine text p.row).take (loc.column - 1)).drop j)) ∧
         (Q = [] ∨ Q.getLast? = some '\n') ∧ (lead = [] ∨ lead = [ellipsis])) := by
-  obtain ⟨res, hs, hok⟩ := prepare_safe text loc m r hlen hcol
+  obtain ⟨res, hs, hok⟩ := prepareOn_safe text loc m r hlen hcol
   rw [h] at hs
   have hres : res = some p := by cases hs; rfl
   have ok := hok p hres
@@ -761,12 +761,12 @@ theorem prepare_caret (text : List Char) (loc : Snippet.Loc) (m : Mapping) (r : 
     | false => rfl
     | true =>
       exfalso
-      unfold prepare at h
+      unfold prepareOn at h
       rw [if_pos hq] at h
       cases h
   have hne : text ≠ [] := by
     intro h0
-    unfold prepare at h
+    unfold prepareOn at h
     rw [if_neg (by rw [hu]; simp), ok.row_rel] at h
     simp only [] at h
     rw [if_pos (by rw [h0]; rfl)] at h
@@ -775,7 +775,7 @@ theorem prepare_caret (text : List Char) (loc : Snippet.Loc) (m : Mapping) (r : 
   have hr2 : p.row ≤ text.count '\n' + 1 := by
     have := ok.we_le; rw [ok.total] at this
     exact Nat.le_trans ok.row_le this
-  obtain ⟨endB, ws, we, g1, g2, g3, g4, g5, g7, g6, heq⟩ := prepare_eq text loc m r hlen p.row hu ok.row_rel hne hr1 hr2
+  obtain ⟨endB, ws, we, g1, g2, g3, g4, g5, g7, g6, heq⟩ := prepareOn_eq text loc m r hlen p.row hu ok.row_rel hne hr1 hr2
     ⟨ok.col_ok.1, by have := ok.col_ok.2; omega⟩
   rw [h] at heq
   obtain ⟨R, body, T, d1, d2, d3, d4, d5, d6, d7, d8⟩ := window_rows_decomp text ws we p.row g1 g2 g3 hr2
@@ -871,5 +871,19 @@ theorem prepare_caret (text : List Char) (loc : Snippet.Loc) (m : Mapping) (r : 
       rw [d6] at this
       exact not_mem_stripCR body d4 this
     omega
+
+/-- `prepare` itself: the marker is under the character in the reported column of the line of the text
+under the YAML rule (the visible line of the normalised text) -/
+theorem prepare_caret (text : List Char) (loc : Snippet.Loc) (m : Mapping) (r : Nat)
+    (hlen : text.length + 1 ≤ usizeMax) (hcol : loc.column ≤ usizeMax) (p : Prepared)
+    (h : prepare text loc m r = .ok (some p)) :
+    ∃ pre rest, p.windowText = pre ++ rest ∧ blen pre = p.localStart ∧
+      pre.count '\n' = p.row - p.windowStartRow ∧
+      (rest.head? = ((visibleLine (normBreaks text) p.row)[loc.column - 1]?).map sanitizeChar ∨
+        ((visibleLine (normBreaks text) p.row)[loc.column - 1]? = none ∧ (rest = [] ∨ rest.head? = some '\n'))) ∧
+      (∃ Q lead j, pre = Q ++ (lead ++ Spec.Snippet.sanitize (((visibleLine (normBreaks text) p.row).take (loc.column - 1)).drop j)) ∧
+        (Q = [] ∨ Q.getLast? = some '\n') ∧ (lead = [] ∨ lead = [ellipsis])) := by
+  rw [prepare_norm] at h
+  exact prepareOn_caret (normBreaks text) loc m r (by rw [normBreaks_length]; exact hlen) hcol p h
 
 end SaphyrVerif.Lemmas.C17
